@@ -127,8 +127,8 @@ def _observe_atom(job):
 
 
 # ---------------- tag-delimited blocks through the whole pipeline ----------------
-TAGPAIRS = [("{% field %}", "{% /field %}"), ("<!-- f:field -->", "<!-- /f:field -->"), ("{# note #}", "{# /note #}"), ("{{ open }}", "{{ /open }}")]
-BODIES = [("list", "- item one\n- item two", "list"), ("olist", "1. first\n2. second", "list"), ("table", "| a | b |\n|---|---|\n| 1 | 2 |", "table"),
+TAGPAIRS = [("{% if c %}", "{% else %}"), ("<!-- begin -->", "<!-- middle -->"), ("{% field %}", "{% /field %}"), ("<!-- f:field -->", "<!-- /f:field -->"), ("{# note #}", "{# /note #}"), ("{{ open }}", "{{ /open }}")]
+BODIES = [("list_tab", "- first\n\t- nested by tab", "list"), ("list_nested", "- first\n  - nested", "list"), ("list", "- item one\n- item two", "list"), ("olist", "1. first\n2. second", "list"), ("table", "| a | b |\n|---|---|\n| 1 | 2 |", "table"),
           ("prose", "Some prose text that is long enough to wrap at narrow widths, certainly.", "p"),
           ("tasks", "- [ ] open {% #id1 %}\n- [x] done {% #id2 %}", "list")]
 
